@@ -1,6 +1,7 @@
 import S3V.Model.Xml
 import S3V.Thm.XmlWf
 import S3V.Thm.XmlEscape
+import S3V.Thm.XmlAttr
 import S3V.Thm.XmlRoundtrip
 import S3V.Thm.XmlStrict
 import S3V.Thm.XmlMeaning
@@ -81,16 +82,33 @@ def rootTag : SerRoot → Bytes
   | .nested o _ _ => o
   | .location t _ => t
 
+/-- does the start tag the serialiser writes for the element of member `f` carry a namespace declaration? What the
+model says (`Xml.attrPairs`, `Xml.nsDeclFor`): it does when the member's type has a member bound to an attribute
+whose name has a prefix — `fn attributes` lists the declaration in front of that attribute, and `start_of` writes
+both into the start tag of whatever element holds the value. -/
+def declares (f : FieldDef Ty) : Bool :=
+  match f.kind with
+  | .ref u =>
+    match serDef u with
+    | some (.struct gs) => gs.any fun g => g.attr && !(nsDeclFor g.tag).isEmpty
+    | _ => false
+  | _ => false
+
+/-- the serialiser entry, with what the model says about namespace declarations -/
+def withDecls : Def Ty → Def Ty
+  | .struct fs => .struct (fs.map fun f => { f with nsdecl := declares f })
+  | d => d
+
 def smithyOk (t : Ty) : Bool :=
   noSmithy.contains t ||
   (match expectedDef t with
    | none => false
    | some e =>
      (match deDef t with
-      | some d => defEqv d e
+      | some d => defEqv d (Def.deView e)
       | none => true) &&
      (match serDef t with
-      | some d => defEqv d (Def.serView e)
+      | some d => defEqv (withDecls d) (Def.serView e)
       | none => true)) &&
   (match serRoot t with
    | some r => noSmithyRoot.contains t || smithyRootAlts t == [rootTag r]
@@ -100,17 +118,22 @@ theorem smithyOk_all : Ty.all.all smithyOk = true := by decide +kernel
 
 /-- **The tables are the Smithy model** (re-decided on every run). For every XML struct/union type of s3s that is
 a structure/union of the joined Smithy model (today: all of them, `noSmithy = []`), the deserialiser entry and
-the serialiser entry have exactly the members the Smithy traits prescribe — element name (`xmlName`), list layout
-(`xmlFlattened`, member `xmlName`), target kind, timestamp format, required / optional, no attributes — as an
-unordered collection, *except* the differences listed by name in `XmlSpec.smithyExceptions`
-(`Grantee.xsi:type` is an `xmlAttribute`, `Grant.Grantee` / `TargetGrant.Grantee` carry the `xmlns:xsi`
-declaration — OPEN finding `xml-xsi-type`; `Tag.Key` / `Tag.Value` are required in Smithy and optional in s3s on
-purpose). Any other difference makes this theorem fail to check. The root element `impl Serialize` writes is the
-one name the operations of the model demand for the type. -/
+the serialiser entry have exactly the members the Smithy traits prescribe — element or attribute name (`xmlName`),
+bound to a child element or to an attribute of the start tag (`xmlAttribute`: `Grantee.xsi:type`; FULL since the
+repair 1dc4ea8 — until then s3s read and wrote a child element `<xsi:type>`, finding `xml-xsi-type`), list layout
+(`xmlFlattened`, member `xmlName`), target kind, timestamp format, required / optional — as an unordered collection,
+*except* the differences listed by name in `XmlSpec.smithyExceptions` (`Tag.Key` / `Tag.Value` are required in
+Smithy and optional in s3s on purpose; nothing else). The serialiser entry moreover declares a namespace prefix in
+the start tag of exactly the member elements the model says (member-level `xmlNamespace`: `Grant.Grantee`,
+`TargetGrant.Grantee`; `withDecls`: what the model of `start_of` writes there — which prefix and which URI is the next
+theorem); for the deserialiser the declaration is not part of the comparison (`Def.deView`: s3s binds the
+attribute by its name as written, `xsi:type`, like the AWS SDKs, and does not ask for the declaration). Any other
+difference makes this theorem fail to check. The root element `impl Serialize` writes is the one name the operations
+of the model demand for the type. -/
 theorem C13_schema_eq_smithy (t : Ty) (ht : t ∉ noSmithy) :
     (∃ e, expectedDef t = some e ∧
-      (∀ d, deDef t = some d → defEqv d e = true) ∧
-      (∀ d, serDef t = some d → defEqv d (Def.serView e) = true)) ∧
+      (∀ d, deDef t = some d → defEqv d (Def.deView e) = true) ∧
+      (∀ d, serDef t = some d → defEqv (withDecls d) (Def.serView e) = true)) ∧
     (∀ r, serRoot t = some r → t ∉ noSmithyRoot → smithyRootAlts t = [rootTag r]) := by
   have hall := List.all_eq_true.mp smithyOk_all t (Ty.mem_all t)
   unfold smithyOk at hall
@@ -131,6 +154,30 @@ theorem C13_schema_eq_smithy (t : Ty) (ht : t ∉ noSmithy) :
     · exact absurd (by simpa using h2) hnr
     · exact eq_of_beq h2
 
+/-- `xmlns:` -/
+def xmlnsColon : Bytes := [120, 109, 108, 110, 115, 58]
+
+def nsDeclOk (e : Ty × Bytes × Bytes × Bytes) : Bool :=
+  match serDef e.1 with
+  | some (.struct fs) =>
+    fs.any fun f => f.tag == e.2.1 &&
+      (match f.kind with
+       | .ref u =>
+         match serDef u with
+         | some (.struct gs) =>
+           gs.any fun g => g.attr && nsDeclFor g.tag == [(xmlnsColon ++ e.2.2.1, escapeAttr e.2.2.2)]
+         | _ => false
+       | _ => false)
+  | _ => false
+
+/-- **The namespace declarations are those of the Smithy model** (re-decided on every run). For every member-level
+`xmlNamespace` trait of the model (`Grant$Grantee`, `TargetGrant$Grantee`: prefix `xsi`, URI
+`http://www.w3.org/2001/XMLSchema-instance`), the serialiser has that member, its type has a member bound to an
+attribute, and what the model writes in front of that attribute (`Xml.nsDeclFor`, the constant `XMLNS_XSI` of
+`xml/generated.rs`, which the translator checks against the source text) is the declaration `xmlns:<prefix>="<uri>"`
+with the prefix and the URI of the trait. -/
+theorem C13_ns_decls : smithyNsDecls.all nsDeclOk = true := by decide +kernel
+
 def wfOk (t : Ty) : Bool :=
   (match deDef t with
    | some _ => (match deSchema t with | some s => s.wf | none => false)
@@ -140,8 +187,9 @@ def wfOk (t : Ty) : Bool :=
 theorem wfOk_all : Ty.all.all wfOk = true := by decide +kernel
 
 /-- **Every extracted schema is well-formed** (re-decided on every run): the table unfolds to a tree (no missing
-entry, no cycle) and in every struct / union of it the element names are pairwise distinct — the hypotheses of the
-generic codec theorems hold for every type. -/
+entry, no cycle), in every struct / union of it the element and attribute names are pairwise distinct, and the name
+of a member bound to an attribute is a plain attribute name (no `=`, no white space, not `xmlns` / `xmlns:xsi`) —
+the hypotheses of the generic codec theorems hold for every type. -/
 theorem C13_tables_wf (t : Ty) :
     (∃ s, serSchema t = some s ∧ WfSch s) ∧
     ((deDef t).isSome = true → ∃ s, deSchema t = some s ∧ WfSch s) := by
@@ -178,16 +226,46 @@ deserialiser applies it) undoes both quick-xml's `escape` (attribute values) and
 theorem C13_unescape_escape (t : Bytes) : unescape (escape t) = some t ∧ unescape (escapeText t) = some t :=
   ⟨unescape_escape t, unescape_escapeText t⟩
 
+/-- **Attribute values are lossless** (code since 1dc4ea8: `xml/ser.rs::attr_value`, `Deserializer::attribute`).
+For every byte string `t`, what `attr_value` writes (`escapeAttr`: quick-xml's `escape`, then tab, LF and CR as
+character references) (1) holds no literal tab, LF or CR — which every XML reader would turn into a space (XML 1.0
+§3.3.3) —, no `"` and no `<`; (2) is left as it is by the attribute-value normalisation `Deserializer::attribute`
+applies; (3) is unescaped to `t`; (4) is UTF-8 when `t` is. And (5), on a whole start tag: for every list of
+attributes `ps` the serialiser can write (`PairOk`: plain keys, `"`-free values), quick-xml's attribute iterator,
+`from_utf8`, the normalisation and `unescape` — `Deserializer::attribute(k)` — applied to the written bytes yield the
+string `b` (a Rust `String`) that `attr_value` wrote for the first attribute named `k`, and nothing when no attribute
+has that name. -/
+theorem C13_attribute_roundtrip (t : Bytes) :
+    (∀ x ∈ escapeAttr t, x ≠ 9 ∧ x ≠ 10 ∧ x ≠ 13 ∧ x ≠ cQuot ∧ x ≠ cLt) ∧
+    attrNormalize (escapeAttr t) = escapeAttr t ∧
+    unescape (escapeAttr t) = some t ∧
+    (utf8Valid t = true → utf8Valid (escapeAttr t) = true) ∧
+    (∀ (ps : List (Bytes × Bytes)) (k : Bytes), (∀ kv ∈ ps, PairOk kv) →
+      ((ps.find? fun kv => kv.1 = k) = none → attrValue k (attrsOf ps) = .ok none) ∧
+      (∀ kv, (ps.find? fun kv => kv.1 = k) = some kv → kv.2 = escapeAttr t → utf8Valid t = true →
+        attrValue k (attrsOf ps) = .ok (some t))) := by
+  refine ⟨escapeAttr_clean t, attrNormalize_escapeAttr t, unescape_escapeAttr t, utf8Valid_escapeAttr, ?_⟩
+  intro ps k hok
+  have hfind := attrFind_written k ps ((attrsOf ps).length + 1) hok (by omega)
+  constructor
+  · intro hn
+    simp only [attrValue, hfind, hn, Option.map_none]
+  · intro kv hs hkv hv
+    simp only [attrValue, hfind, hs, Option.map_some, hkv, utf8Valid_escapeAttr hv, if_true,
+      attrNormalize_escapeAttr, unescape_escapeAttr]
+
 /-- **Round trip, generic** (by mutual structural induction on the schema; no bound on sizes, depths or list
 lengths). For every well-formed schema `s` and every value `v` of it in normal form (`Fits`), decoding the
 encoded content yields `v` and leaves exactly what followed. The content of an element is always followed by the
 element's end tag `stop n`; that is the form stated (an empty string encodes as *no* event, and `Deserializer::text`
-recognises it by the end tag that follows). Normal form: a flattened list member is not the empty list
+recognises it by the end tag that follows). The content is decoded on the start tag the serialiser wrote for it:
+`encAttrs s v` are the attribute bytes `start_of` puts there for `v.attributes()` (since 1dc4ea8; empty unless `s` is
+a struct with a member bound to an attribute), and `decode` reads such members back from them. Normal form: a flattened list member is not the empty list
 (`Some([])` / `[]` write nothing at all and read back as `None` / `MissingField`) — these values have no restXml
 representation of their own; every other value is covered. -/
 theorem C13_codec_roundtrip (X : Ext) (s : Sch) (hwf : WfSch s) (v : Val) (hfit : Fits X s v)
     (n : Bytes) (rest : List Ev) :
-    decode X s (encode s v ++ .stop n :: rest) = .ok (v, .stop n :: rest) :=
+    decode X s (encAttrs s v) (encode s v ++ .stop n :: rest) = .ok (v, .stop n :: rest) :=
   decode_encode X s v hwf hfit n rest
 
 /-- **Round trip of whole documents**: `T::deserialize` followed by `expect_eof` applied to what `T::serialize`
@@ -205,7 +283,7 @@ what the serialiser writes for a value in normal form is read back by the deseri
 content of any element and as a whole document under any root. -/
 theorem C13_codec_roundtrip_types (X : Ext) (t : Ty) (hde : (deDef t).isSome = true) :
     ∃ sd ss, deSchema t = some sd ∧ serSchema t = some ss ∧ ∀ v, Fits X sd v →
-      (∀ n rest, decode X sd (encode ss v ++ .stop n :: rest) = .ok (v, .stop n :: rest)) ∧
+      (∀ n rest, decode X sd (encAttrs ss v) (encode ss v ++ .stop n :: rest) = .ok (v, .stop n :: rest)) ∧
       (∀ tag ns, decodeDoc X (.named tag) sd (encodeDoc (.named tag ns) ss v) = .ok v) ∧
       (∀ o i ns, decodeDoc X (.nested o i) sd (encodeDoc (.nested o i ns) ss v) = .ok v) := by
   obtain ⟨⟨sd, h1, h2⟩, _⟩ := C13_ser_schema_eq_de_schema t hde
@@ -215,13 +293,13 @@ theorem C13_codec_roundtrip_types (X : Ext) (t : Ty) (hde : (deDef t).isSome = t
   refine ⟨sd, sd.serView, h1, h2, ?_⟩
   intro v hfit
   refine ⟨?_, ?_, ?_⟩
-  · intro n rest; rw [encode_serView]; exact decode_encode X sd v hwf hfit n rest
+  · intro n rest; rw [encode_serView, encAttrs_serView]; exact decode_encode X sd v hwf hfit n rest
   · intro tag ns
     have := decodeDoc_encodeDoc_named X tag ns sd v hwf hfit
-    simpa [encodeDoc, encode_serView] using this
+    simpa [encodeDoc, encode_serView, encAttrs_serView] using this
   · intro o i ns
     have := decodeDoc_encodeDoc_nested X o i ns sd v hwf hfit
-    simpa [encodeDoc, encode_serView] using this
+    simpa [encodeDoc, encode_serView, encAttrs_serView] using this
 
 /-- the hand-written `GetBucketLocationOutput` (xml/mod.rs): `Some(constraint)` with a non-empty constraint and
 `None` come back; `Some("")` is written like `None` (not in normal form) -/
@@ -237,7 +315,7 @@ theorem C13_bucket_location_roundtrip (X : Ext) (tag : Bytes) (ns : Option Bytes
     have henc : encodeDoc (.location tag ns) s (.struct [.one (.str b)])
         = [.start tag (nsAttr ns), .text (escapeText b), .stop tag] := by
       simp [encodeDoc, textEv, he]
-    have hf : locationItem tag tag [.text (escapeText b), .stop tag] .absent = .ok (.one (.str b), [.stop tag]) := by
+    have hf : locationItem tag tag (nsAttr ns) [.text (escapeText b), .stop tag] .absent = .ok (.one (.str b), [.stop tag]) := by
       simp [locationItem, FVal.isAbsent, textOf_text_stop _ _ _ (escapeText_noCr b), decodeStr_escapeText hv, hb]
     rw [henc]
     simp only [decodeDoc, List.length_cons, List.length_nil]
@@ -245,7 +323,7 @@ theorem C13_bucket_location_roundtrip (X : Ext) (tag : Bytes) (ns : Option Bytes
     simp [expectEof, skipText]
   · have henc : encodeDoc (.location tag ns) s (.struct [.absent]) = [.start tag (nsAttr ns), .stop tag] := by
       simp [encodeDoc]
-    have hf : locationItem tag tag [.stop tag] .absent = .ok (.absent, [.stop tag]) := by
+    have hf : locationItem tag tag (nsAttr ns) [.stop tag] .absent = .ok (.absent, [.stop tag]) := by
       simp [locationItem, FVal.isAbsent, textOf_stop, decodeStr, utf8Valid_nil, unescape]
     rw [henc]
     simp only [decodeDoc, List.length_cons, List.length_nil]
@@ -255,7 +333,8 @@ theorem C13_bucket_location_roundtrip (X : Ext) (tag : Bytes) (ns : Option Bytes
 /-! ## bytes: writer and tokeniser -/
 
 /-- **The tokeniser reads back what the writer wrote.** For every well-nested event sequence (`WN`: element names of
-name bytes, at most the `xmlns` attribute, texts non-empty, `<`-free and never adjacent; a text outside every
+name bytes, attributes ` key="value"` with such names as keys and `"`-free values — the `xmlns` attribute and, since
+1dc4ea8, the attributes of a value —, texts non-empty, `<`-free and never adjacent; a text outside every
 element is white space — since d51737b the deserialiser refuses any other character data there) that begins with a
 tag, `Deserializer` over the written bytes sees exactly the written events — and everything the encoder produces for
 a schema with good element names is such a sequence (next theorem). -/
@@ -325,39 +404,42 @@ the Rust code statement by statement:
    and whether or not the document is accepted: every character-data event the deserialiser is handed outside all
    elements is a white-space text (`TopClean`) — anything else ends the run with `InvalidContent`;
 2. *known elements*: the element-name dispatch of a struct (`decodeField`) and of a union (`decodeVariant`) succeeds
-   only for the element name of a member / variant;
+   only for the element name of a member / variant — of a member that is read from child elements (`Flds.elemTags`):
+   a member bound to an attribute (`Grantee.xsi:type`, since 1dc4ea8) is not one, a child element of its name is
+   refused like any unknown element;
 3. *no repeated single-valued member*: when the member an element name belongs to is not a flattened list and already
    has a value, the dispatch fails with `DuplicateField`; a successful dispatch leaves the member with a value, and no
    dispatch ever removes a value — so the second element of such a member is always refused;
-4. *required members present*: a struct value is only produced with every required member set. -/
+4. *required members present*: a struct value is only produced with every required member set — the members read
+   from child elements and those read from the attributes of the start tag alike. -/
 theorem C13_decode_strict (X : Ext) :
     (∀ (root : Bytes) (s : Sch) (q : List QEv) (v : Val), decodeDoc X (.named root) s (deEvents q) = .ok v →
       ∃ pre a body post mid tail,
-        deEvents q = pre ++ .start root a :: body ∧ pre.all Ev.isWsText = true ∧ decode X s body = .ok (v, post) ∧
+        deEvents q = pre ++ .start root a :: body ∧ pre.all Ev.isWsText = true ∧ decode X s a body = .ok (v, post) ∧
         post = mid ++ .stop root :: tail ∧ mid.all Ev.isText = true ∧ tail.all Ev.isWsText = true) ∧
     (∀ (q : List QEv), TopClean 0 (deEvents q)) ∧
-    (∀ (fs : Flds) (name : Bytes) (evs : List Ev) (acc : List FVal) (r : List FVal × List Ev),
-      decodeField X fs name evs acc = .ok r → name ∈ fs.tags) ∧
-    (∀ (vars : Vars) (name : Bytes) (evs : List Ev) (r : Val × List Ev),
-      decodeVariant X vars name evs = .ok r → name ∈ vars.tags) ∧
-    (∀ (fs : Flds) (acc : List FVal) (name : Bytes) (evs : List Ev) (shape : Shape) (slot : FVal),
+    (∀ (fs : Flds) (name a : Bytes) (evs : List Ev) (acc : List FVal) (r : List FVal × List Ev),
+      decodeField X fs name a evs acc = .ok r → name ∈ fs.elemTags) ∧
+    (∀ (vars : Vars) (name a : Bytes) (evs : List Ev) (r : Val × List Ev),
+      decodeVariant X vars name a evs = .ok r → name ∈ vars.tags) ∧
+    (∀ (fs : Flds) (acc : List FVal) (name a : Bytes) (evs : List Ev) (shape : Shape) (slot : FVal),
       firstSlot fs acc name = some (shape, slot) → shape ≠ .flat → slot.isAbsent = false →
-      decodeField X fs name evs acc = .error .duplicateField) ∧
-    (∀ (fs : Flds) (acc : List FVal) (name : Bytes) (evs : List Ev) (acc' : List FVal) (r : List Ev),
-      decodeField X fs name evs acc = .ok (acc', r) →
+      decodeField X fs name a evs acc = .error .duplicateField) ∧
+    (∀ (fs : Flds) (acc : List FVal) (name a : Bytes) (evs : List Ev) (acc' : List FVal) (r : List Ev),
+      decodeField X fs name a evs acc = .ok (acc', r) →
       (∃ shape slot, firstSlot fs acc' name = some (shape, slot) ∧ slot.isAbsent = false) ∧
       (∀ name' shape slot, firstSlot fs acc name' = some (shape, slot) → slot.isAbsent = false →
         ∃ slot', firstSlot fs acc' name' = some (shape, slot') ∧ slot'.isAbsent = false)) ∧
-    (∀ (fs : Flds) (evs rest : List Ev) (v : Val), decode X (.struct fs) evs = .ok (v, rest) →
+    (∀ (fs : Flds) (a : Bytes) (evs rest : List Ev) (v : Val), decode X (.struct fs) a evs = .ok (v, rest) →
       ∃ fvs, v = .struct fvs ∧ ReqPresent fs fvs) :=
   ⟨fun _ _ _ _ h => decodeDoc_named_clean X h,
    fun q => deEventsAt_topClean q 0,
    decodeField_known X,
    decodeVariant_known X,
    decodeField_repeated X,
-   fun fs acc name evs acc' r h =>
-     ⟨decodeField_fills X fs acc name evs acc' r h, decodeField_keeps X fs acc name evs acc' r h⟩,
-   fun _ _ _ _ h => decode_struct_required X h⟩
+   fun fs acc name a evs acc' r h =>
+     ⟨decodeField_fills X fs acc name a evs acc' r h, decodeField_keeps X fs acc name a evs acc' r h⟩,
+   fun _ _ _ _ _ h => decode_struct_required X h⟩
 
 /-! ## meaning -/
 
@@ -375,12 +457,12 @@ specification's `XmlSpec.normEol`, XML 1.0 §2.11, before references are resolve
    integer, boolean, timestamp alike) a text `raw` whose unescaped form is exactly the string `m` the run denotes —
    never a shortened one, never one with a line end left as it was written;
 2. a string element is read as `m`, and the cursor is behind the element. -/
-theorem C13_decode_meaning (X : Ext) (run : List QEv) (name : Bytes) (rest : List QEv) (d : Nat) (m : Bytes)
+theorem C13_decode_meaning (X : Ext) (run : List QEv) (name a : Bytes) (rest : List QEv) (d : Nat) (m : Bytes)
     (hm : charsMeaning run = some m) :
     (∃ raw, textOf (deEventsAt (d + 1) (run ++ .stop name :: rest)) = .ok (raw, .stop name :: deEventsAt d rest) ∧
       decodeStr raw = .ok m) ∧
-    readStringElement X name (deEventsAt (d + 1) (run ++ .stop name :: rest)) = .ok (.str m, deEventsAt d rest) :=
-  ⟨textOf_meaning name rest d run m hm, readString_meaning X name rest d run m hm⟩
+    readStringElement X name a (deEventsAt (d + 1) (run ++ .stop name :: rest)) = .ok (.str m, deEventsAt d rest) :=
+  ⟨textOf_meaning name rest d run m hm, readString_meaning X name a rest d run m hm⟩
 
 /-- **Line ends are read as XML 1.0 §2.11 demands** (since the repair d365e05; finding `xml-eol-not-normalised`,
 fixed). What `xml/de.rs` does to the raw text of a CDATA section (`normLineEnds`: nothing when there is no CR,
@@ -426,6 +508,31 @@ example (X : Ext) : Fits X taggingSch taggingVal := by
     exact ⟨by decide, by decide, trivial⟩
   · rw [fits_struct, fitsFields_absent, fitsFields_one, fitsFields_nil, fits_str]
     exact ⟨rfl, by decide, trivial⟩
+
+/-- the schema of `Grantee`: four optional string elements and the required attribute `xsi:type` -/
+def granteeSch : Sch :=
+  .struct (.cons t_DisplayName .opt .single .str (.cons t_EmailAddress .opt .single .str (.cons t_ID .opt .single .str
+    (.cons t_URI .opt .single .str (.cons t_xsi_x3Atype .req .attr .enm .nil)))))
+
+example : optSchBeq (deSchema .Grantee) (some granteeSch) = true := by decide +kernel
+example : optSchBeq (serSchema .Grantee) (some granteeSch) = true := by decide +kernel
+example : WfSch granteeSch := by decide +kernel
+
+/-- `ID` = `abc`, `xsi:type` = ` <a>&'" TAB CR LF é ` (markup characters, white space an XML reader would turn into
+spaces, non-ASCII) -/
+def granteeVal : Val :=
+  .struct [.absent, .absent, .one (.str [97, 98, 99]), .absent, .one (.str [32, 60, 97, 62, 38, 39, 34, 9, 13, 10, 32, 195, 169, 32])]
+
+example (X : Ext) : Fits X granteeSch granteeVal := by
+  unfold granteeSch granteeVal
+  rw [fits_struct, fitsFields_absent, fitsFields_absent, fitsFields_one, fitsFields_absent, fitsFields_attr,
+    fitsFields_nil, fits_str]
+  exact ⟨rfl, rfl, by decide, rfl, by decide, trivial⟩
+
+/-- what the serialiser writes for it: `<Grantee xmlns:xsi="…" xsi:type=" &lt;a&gt;&amp;&apos;&quot;&#9;&#13;&#10; é ">` -/
+example : write (encodeDoc (.named t_Grantee none) granteeSch granteeVal)
+    = [60, 71, 114, 97, 110, 116, 101, 101, 32, 120, 109, 108, 110, 115, 58, 120, 115, 105, 61, 34, 104, 116, 116, 112, 58, 47, 47, 119, 119, 119, 46, 119, 51, 46, 111, 114, 103, 47, 50, 48, 48, 49, 47, 88, 77, 76, 83, 99, 104, 101, 109, 97, 45, 105, 110, 115, 116, 97, 110, 99, 101, 34, 32, 120, 115, 105, 58, 116, 121, 112, 101, 61, 34, 32, 38, 108, 116, 59, 97, 38, 103, 116, 59, 38, 97, 109, 112, 59, 38, 97, 112, 111, 115, 59, 38, 113, 117, 111, 116, 59, 38, 35, 57, 59, 38, 35, 49, 51, 59, 38, 35, 49, 48, 59, 32, 195, 169, 32, 34, 62, 60, 73, 68, 62, 97, 98, 99, 60, 47, 73, 68, 62, 60, 47, 71, 114, 97, 110, 116, 101, 101, 62] := by
+  decide +kernel
 
 /-- white space around the root is accepted: ` \n<Key>k</Key>\n` (the hypothesis of clause 1 is inhabited) … -/
 example : (match decodeDoc { tsParse := fun _ _ => none } (.named t_Key) .str
